@@ -184,7 +184,7 @@ def run(repo, rep):
 
     # ---------------------------------------------------------------- C08.b numbers
     n = 0
-    itn = S.interp(repo, 'printer', {'_builtin_repr': lambda it, a, k, nd: SymStr('base_repr(%s)' % prov(a[1]), nonempty=True)})
+    itn = S.interp(repo, 'printer', {__import__('engine.roles', fromlist=['x']).name(repo, 'builtin_repr'): lambda it, a, k, nd: SymStr('base_repr(%s)' % prov(a[1]), nonempty=True)})
     for base in ('int', 'float', 'bool'):
         fn = S.printer_for(repo, base)
         v = ValueV('value', S.type_scenario(base, False), None)
@@ -239,12 +239,12 @@ def run(repo, rep):
                              "type's repr must be used" % (f.name, bad))
         # positive: the base repr is used
         base_calls = [c for node in [f.node] + [g.node for g in nested] for c in ast.walk(node) if isinstance(c, ast.Call) and (
-            call_name(c) == '_builtin_repr' or call_name(c).endswith('.__repr__'))]
+            call_name(c) == __import__('engine.roles', fromlist=['x']).name(repo, 'builtin_repr') or call_name(c).endswith('.__repr__'))]
         if f.name in ('pretty_int', 'pretty_float', 'escape_str_for_quote'):
             n += 1
             rep.check(bool(base_calls), 'C08.c', '%s:uses-base-repr' % f.name, f.where, 'literal from the base type repr',
                       '%s does not obtain the literal from the built-in type\'s own __repr__' % f.name, nontrivial=True)
-    br = m.funcs.get('_builtin_repr')
+    br = m.funcs.get(__import__('engine.roles', fromlist=['x']).name(repo, 'builtin_repr'))
     if br is not None:
         n += 1
         rets = [src(r.value) for r in ast.walk(br.node) if isinstance(r, ast.Return) and r.value is not None]
